@@ -536,6 +536,32 @@ def gadget_items(tier):
     return items
 
 
+def mirror_items():
+    """Two namespaces that define the SAME names with the SAME doc texts (unqualified references resolve per namespace), alone and
+    with a third namespace that uses both: whatever is keyed by a bare type name or by a doc text must not confuse the two."""
+    def defs(third):
+        d = [mkstruct('Common', fields=[mkfield('x', I32)]),
+             mkstruct('Deep', fields=[mkfield('c', R(None, 'Common'))], doc='Deep part, see :type:`Common`.'),
+             mkstruct('Island', fields=[mkfield('x', I32)]),
+             mkstruct('Second', fields=[mkfield('s', N(R(None, 'Deep')))]),
+             mkstruct('Start', fields=[mkfield('f', I32, doc='Counted in :type:`Target` and :field:`Target.deep`.')], doc='Starts at :type:`Target`; see :route:`aux`.'),
+             mkstruct('Target', fields=[mkfield('deep', R(None, 'Deep'))]),
+             mkunion('Pick', tags=[mktag('pv'), mktag('pt', R(None, 'Target'))], doc='Picks :type:`Second`.'),
+             mkroute('aux', 1, R(None, 'Second'), VOID, VOID, doc='Helper for :route:`go`.'),
+             mkroute('go', 1, R(None, 'Start'), R(None, 'Pick'), VOID, doc='Goes to :type:`Target` via :route:`aux`.'),
+             mkroute('idle', 1, R(None, 'Island'), VOID, VOID)]
+        return tuple(sorted(d, key=mm.def_sort_key))
+    out = []
+    for order in (('wa', 'wb'), ('wb', 'wa')):
+        nss = [Namespace(n, (File(None, (), defs(False)),)) for n in order]
+        routes = [(n, r, 1) for n in ('wa', 'wb') for r in ('go', 'aux')] + [('wa', 'idle', 1)]
+        out.append((('mirror', 'two namespaces, same names and docs', ' '.join(order)), Model(tuple(nss)), routes, [('wb', 'Target'), ('wa', 'Deep')], True))
+        third = Namespace('wc', (File(None, ('wa', 'wb'), (mkstruct('Both', fields=[mkfield('a', R('wa', 'Start')), mkfield('b', N(R('wb', 'Start')))], doc='Both :type:`wa.Target` and :type:`wb.Second`.'),
+                                                           mkroute('reach', 1, R(None, 'Both'), R('wb', 'Pick'), R('wa', 'Pick')))),))
+        out.append((('mirror', 'plus a namespace that uses both', ' '.join(order)), Model(tuple(nss) + (third,)), [('wc', 'reach', 1)] + routes[:4], [('wb', 'Island')], True))
+    return out
+
+
 def machine_items(tier, r):
     # family pairs in both tiers (deeper in the thorough tier): the whitelist dimension multiplies every model by its route subsets
     states = c01.gather_states('quick', r, budget=150 if tier == 'quick' else 1200)
@@ -551,7 +577,7 @@ def machine_items(tier, r):
 
 def run(tier, seed):
     r = explore.Run(PROP, tier, seed)
-    items = gadget_items(tier)
+    items = gadget_items(tier) + mirror_items()
     ng = len(items)
     items += machine_items(tier, r)
     r.bounds.update({'edge_kinds': KINDS, 'gadget_specs': ng, 'machine_models_with_routes': len(items) - ng,
